@@ -5,7 +5,7 @@ import json
 import random
 import sys
 
-from common import (Build, MachineryError, Verdict, graph_paths, make_cfg,
+from common import (one_case, Build, MachineryError, Verdict, graph_paths, make_cfg,
                     run_children, run_tlc, seed, shard, split_behaviours,
                     tla_bool, join_obs, NCPU)
 
@@ -212,7 +212,8 @@ def run_replay(build, v, pid, consts, opt, mode, cases, budget):
                 pid, m['impl'], job['flavour'], m['what'],
                 json.dumps(m['expected']), json.dumps(m['got']),
                 json.dumps(m['ctx'], sort_keys=True)[:1500])
-            v.violation(sig, m)
+            v.violation(sig, m, one_case('replay_registry.py', implv, job,
+                                         m))
     v.cov['traces_validated_against_impl'] += 4 * len(cases)
     return len(cases)
 
@@ -232,10 +233,19 @@ def main(pid, tier):
         'orders are assumed correct here (C02/C03 establish them)',
         'answers among incomparable provided interfaces / incomparable '
         'subscription keys are deliberately not pinned (admissible sets)']
+    with Build() as build:
+        exhaustive = run(pid, tier, v, build)
+    v.cov['exhaustive'] = exhaustive
+    return v.finish()
+
+
+def run(pid, tier, v, build, plan=None):
+    """model-check + replay the configurations of PLAN[pid][tier] (or the
+    given plan); returns whether everything enumerated was also replayed"""
     budget = 3000 if tier == 'quick' else 10 ** 9
     exhaustive = True
-    with Build() as build:
-        for (name, kind, consts, opt) in PLAN[pid][tier]:
+    if True:
+        for (name, kind, consts, opt) in (plan or PLAN[pid])[tier]:
             flav = flavour_of(consts)
             if kind == 'states':
                 cfg = make_cfg(build.dir, 'reg', consts, view='View',
@@ -332,8 +342,18 @@ def main(pid, tier):
                     v.sample({'config': label, 'behaviour': [
                         {k: w for k, w in s['act'].items() if k != 'adm'}
                         for s in cases[0]['steps']]})
-    v.cov['exhaustive'] = exhaustive
-    return v.finish()
+    return exhaustive
+
+
+C10_PLAN = {
+    'quick': [PLAN['C05']['quick'][2], PLAN['C05']['quick'][3],
+              ('books-sim', 'sim', dict(BOOKS, MaxLive=5, MaxDepth=100),
+               dict(sb='SB_Chain2', rb='RB_One', eq12=True, num=150,
+                    depth=25))],
+    'thorough': PLAN['C05']['thorough'][2:] + PLAN['C06']['thorough'][4:] + [
+        ('books-sim', 'sim', dict(BOOKS, MaxLive=5, MaxDepth=100),
+         dict(sb='SB_Chain2', rb='RB_One', eq12=True, num=3000, depth=25))],
+}
 
 
 if __name__ == '__main__':
